@@ -61,7 +61,82 @@ def _check(side, mode, L, qty, entry, low, high):
     return None
 
 
+TS0 = 1609459200000
+
+
+def _backtest(rows, strategy_cls, tf, fast, L=10, fee=0.0):
+    from jesse import research
+    cfg = {'starting_balance': 10000, 'fee': fee, 'type': 'futures', 'futures_leverage': L, 'futures_leverage_mode': 'isolated',
+           'exchange': 'Sandbox', 'warm_up_candles': 0}
+    return research.backtest(cfg, [{'exchange': 'Sandbox', 'strategy': strategy_cls, 'symbol': 'BTC-USDT', 'timeframe': tf}], [],
+                             {'Sandbox-BTC-USDT': {'exchange': 'Sandbox', 'symbol': 'BTC-USDT', 'candles': np.array(rows, dtype=float)}},
+                             fast_mode=fast)
+
+
+def _flat(n, price=100.0):
+    return [[TS0 + i * 60000, price, price, price, price, 10.0] for i in range(n)]
+
+
+def simulator_scenarios():
+    """real backtests (10x isolated): a wick to the liquidation price must force-close in that minute / chunk - also when
+    it is not the last minute of a fast-mode chunk and when a resting order was filled in the same minute; an averaged
+    entry moves the liquidation price"""
+    from jesse.strategies import Strategy
+    from jesse.store import store
+    seen = {}
+
+    def base(entries, tp=None):
+        class S(Strategy):
+            def should_long(self): return self.index == 0
+            def should_short(self): return False
+            def should_cancel_entry(self): return False
+            def go_long(self): self.buy = entries(self.price) if callable(entries) else entries
+            def go_short(self): pass
+
+            def on_open_position(self, order):
+                if tp:
+                    self.take_profit = tp
+
+            def before_terminate(self):
+                seen['liqs'] = store.app.total_liquidations
+                seen['qty'] = self.position.qty
+        return S
+    # (a) fast mode, 5m route: wick to 90.2 (liq of a 10x long from 100 is 90.4) in minute 2 of the second chunk, recovered
+    rows = _flat(20)
+    rows[7] = [rows[7][0], 100.0, 100.0, 100.0, 90.2, 10.0]
+    _backtest(rows, base((1, 100.0)), '5m', True)
+    if seen.get('liqs') != 1:
+        return (f'fast mode, 5m route, 10x isolated long from 100 (liquidation price 90.4): minute 7 wicks to 90.2 inside the chunk and recovers: '
+                f'{seen.get("liqs")} liquidations, position {seen.get("qty")} (expected a force-close)')
+    # (b) step mode: half take-profit at 100.8 fills and the same minute wicks to 90.2
+    rows = _flat(8)
+    rows[3] = [rows[3][0], 100.0, 100.0, 101.0, 90.2, 10.0]
+    _backtest(rows, base((2, 100.0), tp=(1, 100.8)), '1m', False)
+    if seen.get('liqs') != 1:
+        return (f'step mode, 10x isolated long 2 from 100 with a take-profit of 1 at 100.8: minute 3 ranges 90.2..101 (fill at 100.8, then the '
+                f'liquidation price 90.4): {seen.get("liqs")} liquidations, position {seen.get("qty")} (expected a force-close of the rest)')
+    # (c) averaged entry 100 / 95 -> entry 97.5, liquidation price 88.14; a wick to 89 (below the first fill's 90.4) must not liquidate
+    rows = _flat(10)
+    rows[2] = [rows[2][0], 100.0, 96.0, 100.0, 94.5, 10.0]
+    for i in range(3, 10):
+        rows[i] = [rows[i][0], 96.0, 96.0, 96.0, 96.0, 10.0]
+    rows[6] = [rows[6][0], 96.0, 96.0, 96.0, 89.0, 10.0]
+    for fast in (False, True):
+        _backtest(rows, base(lambda price: [(1, price), (1, 95.0)]), '1m', fast)
+        if seen.get('liqs') != 0:
+            return (f'{"fast" if fast else "step"} mode, 10x isolated long averaged at 100 and 95 (entry 97.5, liquidation price 88.14): a wick '
+                    f'to 89 force-closed the position ({seen.get("liqs")} liquidations) although it never reached the liquidation price')
+    return None
+
+
 def replay(pl):
+    if pl['obligation'].startswith('call-site') or pl['obligation'].startswith('after-fill'):
+        try:
+            d = simulator_scenarios()
+        except Exception as ex:
+            import traceback
+            return {'confirmed': False, 'error': f'{type(ex).__name__}: {ex}', 'stderr': traceback.format_exc()[-800:]}
+        return {'confirmed': bool(d), 'detail': d or 'real backtests liquidate exactly when the minute / chunk reaches the liquidation price'}
     m = pl['m']
     ob = pl['obligation']
     task = pl.get('task') or ''
